@@ -56,7 +56,7 @@ with ThreadPoolExecutor(NW) as ex:
 for k in range(NW):
     subprocess.run(["git", "-C", "/repo", "worktree", "remove", "--force", f"/tmp/verif_seedwt_{k}"], capture_output=True)
 prev = {}
-rp = Path("/verif/seeded/REGRESSION.json")
+rp = Path(__import__("os").environ.get("SEED_REGRESS_OUT", "/verif/seeded/REGRESSION.json"))
 if rp.exists() and only:
     prev = json.loads(rp.read_text()).get("results", {})
 prev.update(out)
